@@ -1055,7 +1055,8 @@ class NF:
         from . import norm
         import copy as _copy
         stmts = real_body(m)
-        if _computed_spelling(m) and env.cls is not None:
+        if _computed_spelling(m) and env.cls is not None and not getattr(env, "_canonical", False):
+            # the canonical body (run for the receiver's class) writes both out; as written where that does not evaluate
             try:
                 from .canon import Canon
                 cn = getattr(self.prog, "_canon", None)
@@ -1063,9 +1064,18 @@ class NF:
                     cn = self.prog._canon = Canon(self.prog)
                 dk = next((k_ for k_ in env.cls.mro if isinstance(k_, Class) and m in k_.methods.values()), None)
                 if dk is not None:
-                    stmts = cn.body(m, dk.module, dk, subst=False)
+                    e2 = env.child()
+                    r = self._body_of(m, cn.body(m, dk.module, env.cls, subst=False), e2)
+                    env.vars.update(e2.vars)
+                    env.types.update(e2.types)
+                    return r
             except Exception:
-                stmts = real_body(m)
+                pass
+        return self._body_of(m, stmts, env)
+
+    def _body_of(self, m, stmts, env: Env):
+        from . import norm
+        import copy as _copy
         if any(isinstance(t_, ast.Subscript) or isinstance(s_, ast.Expr) for s_ in stmts for t_ in (getattr(s_, "targets", None) or [None])):
             stmts = norm.merge_display_building([_copy.deepcopy(s_) for s_ in stmts])
         if any(isinstance(n, ast.For) for s_ in stmts for n in ast.walk(s_)):
